@@ -297,6 +297,12 @@ pub fn canonical(file: &File) -> String {
                 other => ts(other),
             });
         }
+        // the attributes of one method are a declaration order too (`sv::attr` above / below
+        // `sv::msg`); the re-emitted user item keeps whatever order was written
+        fn visit_trait_item_fn_mut(&mut self, i: &mut syn::TraitItemFn) {
+            syn::visit_mut::visit_trait_item_fn_mut(self, i);
+            i.attrs.sort_by_key(ts);
+        }
         fn visit_item_trait_mut(&mut self, i: &mut syn::ItemTrait) {
             syn::visit_mut::visit_item_trait_mut(self, i);
             i.attrs.sort_by_key(ts);
@@ -362,6 +368,7 @@ pub fn canonical(file: &File) -> String {
         }
         fn visit_impl_item_fn_mut(&mut self, i: &mut syn::ImplItemFn) {
             syn::visit_mut::visit_impl_item_fn_mut(self, i);
+            i.attrs.sort_by_key(ts);
             // the wrapper's Deserialize tries its parts one after the other: order of the
             // attempts only reflects declaration order (names are disjoint by C05)
             if i.sig.ident == "deserialize" {
